@@ -1,76 +1,44 @@
 """C11 - context streams run in their creation context and leave the consumer's intact."""
+import asyncio
+import random
+
 from haiway import ctx
 
 from harness import interp
 from harness.interp import World
-from harness.legs import cfg_text, leg_m, leg_mutant, leg_r
+from harness.legs import cfg_text, gen_traces, leg_m, leg_mutant, leg_r, leg_t_gen
 
 SPEC = "Streams"
 MANIFEST = dict(
-    text="Streams.tla states the intended design of ctx.stream (items in order then the generator's own end; the "
-         "generator always sees the creation context; the consumer's state / metrics scope / task group untouched "
-         "between items, after the end, after break and after close; the stream's scope completes on exhaustion or "
-         "close) for a stream created in one scope and consumed in the same scope, another scope, outside any scope or "
-         "item by item from other tasks, fully / abandoned / closed. TLC checks ItemsInOrder, EndsWithError, "
-         "GenSeesCreation, ConsumerIntact, StreamScopeCompletes on the intended design. The pinned implementation runs "
-         "the generator body in the CONSUMER's context (a genuine defect whose repair is a redesign): it is described "
-         "in the same module by deviation actions *_KF_C11 that havoc exactly the affected observation fields; the "
-         "conformance replay accepts an intended or a deviation successor, classifies every deviation case into the "
-         "listed known findings (KNOWN-FINDING lines) and reports anything else - wrong item order, lost items, wrong "
-         "end, a deviation outside the listed signatures - as a violation.",
-    technique="TLA+ spec + TLC exhaustive model checking of the intended design; edge-complete graph replay into the "
-              "implementation with named deviation actions for the listed known findings",
+    text="Streams.tla describes ctx.stream (items in order then the generator's own end; the generator body always "
+         "sees the creation context - state, metrics scope, task group - whichever task pulls; the consumer's state / "
+         "metrics scope / task group untouched between items, after the end, after break and after close; the stream's "
+         "scope completes on exhaustion or close, also when closed before the first item) for a stream created in one "
+         "scope and consumed in the same scope, another scope, outside any scope or item by item from fresh tasks, "
+         "fully / abandoned / closed, with a normal or failing end and an optional nested scope inside the generator. "
+         "TLC checks ItemsInOrder, EndsWithError, GenSeesCreation, ConsumerIntact, StreamScopeCompletes; every edge is "
+         "replayed into real streams, the generator double yielding what it observes itself and the consumer "
+         "re-probing its own context after every step. (Until the repair of ctx.stream - fix #21 - the module carried "
+         "deviation actions for five known findings; they are gone, any deviation is a violation now.)",
+    technique="TLA+ spec + TLC exhaustive model checking; edge-complete graph replay into the implementation through "
+              "the gated interpreter",
     design="5/C11")
-INVS = ["TypeOK", "ItemsInOrder", "EndsWithError", "GenSeesCreation", "ConsumerIntact", "StreamScopeCompletes"]
+INVS = ["TypeOK", "ItemsInOrder", "EndsWithError", "GenSeesCreation", "CallSeesStreamScope", "ConsumerIntact",
+        "StreamScopeCompletes"]
 STREAM = 50
-
-KF_TEXT = {
-    "KF-C11-gen-sees-consumer-state": "the stream's generator body observes the state of the context that calls "
-                                      "__anext__ (consumer's scope / none), not the state current where ctx.stream was called",
-    "KF-C11-consumer-sees-stream-scope": "between items the consumer's context holds the stream's metrics scope and task "
-                                         "group (and the generator's nested state)",
-    "KF-C11-abandon-leak": "after an early break the stream's scope stays entered in the consumer's context until aclose()",
-    "KF-C11-cross-task-reset": "consuming (or closing) a stream from a task other than the one that pulled the first "
-                               "item fails with ValueError (context token reset in a different Context) and the stream's "
-                               "scope never completes",
-    "KF-C11-unstarted-close": "a stream closed before its first item never enters its pre-built scope, so the creator "
-                              "scope's completion never fires",
-}
-
-
-def kf_classify(case):
-    """deviation case -> listed finding ids, or None when a differing field is not covered by any of them"""
-    place = case["init"]["place"]
-    act = case["action"].split("_KF_")[0]
-    obs, intended = case["observed"], case["intended"]
-    out = set()
-    if place == "other_task" and obs["res"][0] == "exc" and not obs["s1"] and \
-            all(path.startswith("res") or path == "s1" for path in case["diff"]):
-        return ["KF-C11-cross-task-reset"]
-    for path in case["diff"]:
-        if path in ("res[3]", "res[4]") and act == "Pull" and place == "other_task":
-            out.add("KF-C11-gen-sees-consumer-state")
-        elif path == "res[3]" and act == "Pull" and place != "same":
-            out.add("KF-C11-gen-sees-consumer-state")
-        elif path.startswith("cons") and act == "Pull" and place != "other_task":
-            out.add("KF-C11-consumer-sees-stream-scope")
-        elif path.startswith("cons") and act == "Abandon" and place != "other_task":
-            out.add("KF-C11-abandon-leak")
-        elif place == "other_task" and (path in ("res[1]", "s1")) and obs["res"][0] in ("exc",) and not obs["s1"]:
-            out.add("KF-C11-cross-task-reset")
-        elif place == "other_task" and path == "s1" and not obs["s1"]:
-            out.add("KF-C11-cross-task-reset")
-        elif act == "Close" and path == "s1" and not obs["s1"] and obs["res"][0] == "closed":
-            out.add("KF-C11-unstarted-close")
-        else:
-            return None
-    return sorted(out) or None
+BUSY = 77
 
 
 class StreamsDriver:
     def reset(self, init):
         self.w = w = World(types=("A",))
         self.place, self.n, self.ending, self.nested = init["place"], init["n"], init["ending"], init["nested"]
+        self.slow = init["slow"]
+        self.kind = init["kind"]
+        self.call_view = (0, 0, 0)
+        self.hold = None
+        self.puller = None
+        self.res = []
         self.done = []
         self.k = 0
         drv = self
@@ -78,20 +46,33 @@ class StreamsDriver:
         async def gen(tag):
             assert tag == "t"
             for i in range(drv.n):
+                if drv.slow == i + 1:
+                    drv.hold = w.loop.create_future()   # suspended before this item until the driver releases it
+                    await drv.hold
                 if drv.nested and i == 1:
                     with ctx.scope("s3", interp.A(v=3)):
-                        yield (i, w.lookup("A"), w.metrics_label())
+                        yield (i, w.lookup("A"), w.metrics_label(), w.group_id())
                 else:
-                    yield (i, w.lookup("A"), w.metrics_label())
+                    yield (i, w.lookup("A"), w.metrics_label(), w.group_id())
             if drv.ending == "error":
                 raise w.err_of("gen")
 
+        def factory(tag):
+            # a plain function: calling it does work (here: it looks around) and returns the generator
+            drv.call_view = (w.lookup("A"), drv._m(w.metrics_label()), drv._m(w.group_id()))
+            return gen(tag)
+
+        def raising(tag):
+            raise w.err_of("gen")
+
+        factory.__name__ = raising.__name__ = "gen"   # the stream's scope is named after its source
         self.gen = gen
+        self.source = {"agen": gen, "factory": factory, "raising": raising}[self.kind]
         w.start("1")
         w.do("1", "ascope", 1, [("A", 1)], None, lambda m: drv.done.append(1))
 
         def mk():
-            drv.stream = ctx.stream(gen, "t")
+            drv.stream = ctx.stream(drv.source, "t")
 
         w.do("1", "call", mk)
         if self.place != "same":
@@ -106,32 +87,48 @@ class StreamsDriver:
     def _cons(self):
         p = self.w.at.get("1")
         if p is None:
-            return ("busy", self.w.status("1"), 0)
+            return (BUSY, BUSY, BUSY) if self.w.status("1") == "busy" else ("gone", self.w.status("1"), 0)
         return (p["A"], self._m(p["ms"]), self._m(p["tg"]))
 
     def _run(self, fn):
         if self.place == "other_task":
             self.k += 1
-            name = f"n{self.k}"
+            name = self.puller = f"n{self.k}"
             self.w.do("1", "plainspawn", name)
             self.w.do(name, "call", fn)
-            if self.w.status(name) == "gate":
-                self.w.do(name, "leave", "return")
         else:
+            self.puller = "1"
             self.w.do("1", "call", fn)
+        self._retire()
+
+    def _retire(self):
+        """a helper task that finished its pull goes away"""
+        if self.puller not in (None, "1") and self.w.status(self.puller) == "gate":
+            self.w.do(self.puller, "leave", "return")
 
     def apply(self, name, args):
         w = self.w
-        res = []
+        res = self.res = []
+        if name in ("Release", "CancelPull"):
+            if name == "Release":
+                self.hold.set_result(None)
+            else:
+                w.tasks[self.puller].cancel()
+            w.loop.quiesce()
+            self._retire()
+            return dict(res=self.pending[0] if self.pending else ("hang", 0, 0, 0, 0), cons=self._cons(), s1=bool(self.done), call=tuple(self.call_view))
         if name == "Pull":
+            res = self.pending = []
             async def nx():
                 try:
-                    i, a, ms = await self.stream.__anext__()
-                    res.append(("item", i, a, self._m(ms)))
+                    i, a, ms, tg = await self.stream.__anext__()
+                    res.append(("item", i, a, self._m(ms), self._m(tg)))
                 except StopAsyncIteration:
-                    res.append(("stop", 0, 0, 0))
+                    res.append(("stop", 0, 0, 0, 0))
+                except asyncio.CancelledError:
+                    res.append(("cancelled", 0, 0, 0, 0))
                 except BaseException as e:  # noqa: BLE001
-                    res.append(("err", 0, 0, 0) if e is w.errs.get("gen") else ("exc", 0, 0, 0))
+                    res.append(("err", 0, 0, 0, 0) if e is w.errs.get("gen") else ("exc", 0, 0, 0, 0))
                     if res[-1][0] == "exc":
                         self.last_exc = repr(e)[:200]
             self._run(nx)
@@ -139,53 +136,102 @@ class StreamsDriver:
             async def cl():
                 try:
                     await self.stream.aclose()
-                    res.append(("closed", 0, 0, 0))
+                    res.append(("closed", 0, 0, 0, 0))
                 except BaseException as e:  # noqa: BLE001
-                    res.append(("exc", 0, 0, 0))
+                    res.append(("exc", 0, 0, 0, 0))
                     self.last_exc = repr(e)[:200]
             self._run(cl)
         elif name == "Abandon":
-            res.append(("abandoned", 0, 0, 0))
+            res.append(("abandoned", 0, 0, 0, 0))
         else:
             raise ValueError(name)
         w.loop.quiesce()
-        return dict(res=res[0] if res else ("hang", 0, 0, 0), cons=self._cons(), s1=bool(self.done))
+        if not res and name == "Pull" and self.hold is not None and not self.hold.done():
+            return dict(res=("pending", 0, 0, 0, 0), cons=self._cons(), s1=bool(self.done), call=tuple(self.call_view))
+        return dict(res=res[0] if res else ("hang", 0, 0, 0, 0), cons=self._cons(), s1=bool(self.done), call=tuple(self.call_view))
 
     def close(self):
         self.w.close()
 
 
+def gen_trace(rnd, max_items=8):
+    """a random scenario with up to 8 items and a random sequence of pull / release / cancel / abandon / close, recorded
+    from the real stream"""
+    n = rnd.randint(1, max_items)
+    init = dict(place=rnd.choice(["same", "other_scope", "outside", "other_task"]), n=n,
+                ending=rnd.choice(["normal", "error"]), nested=n >= 2 and rnd.random() < 0.5,
+                slow=rnd.choice([0, 0, rnd.randint(1, n)]), kind=rnd.choice(["agen", "agen", "factory", "factory", "raising"]))
+    if init["kind"] == "raising":
+        init.update(n=1, nested=False, slow=0, ending="normal")
+        n = 1
+    d = StreamsDriver()
+    d.reset(init)
+    tr = [dict(ev="Init", init=init)]
+    sst, ops = "fresh", 0
+    try:
+        while ops < n + 3:
+            if sst == "pulling":
+                name = rnd.choice(["Release", "Release", "CancelPull"])
+            else:
+                ch = ["Pull"] * 8
+                if sst in ("fresh", "open"):
+                    ch += ["Close"]
+                if sst == "open":
+                    ch += ["Abandon"]
+                name = rnd.choice(ch)
+            o = d.apply(name, ())
+            ops += 1
+            k = o["res"][0]
+            sst = {"pending": "pulling", "item": "open", "stop": "ended" if sst in ("fresh", "open") else sst,
+                   "err": "ended", "closed": "closed", "cancelled": "cancelled", "abandoned": sst}.get(k, "dead")
+            tr.append(dict(ev=name, args=[], obs=dict(res=list(o["res"]), cons=list(o["cons"]), s1=o["s1"], call=list(o["call"]))))
+            if sst == "dead":
+                break
+    finally:
+        d.close()
+    return tr
+
+
+TRACE_KW = dict(
+    variables=["place", "n", "ending", "nested", "slow", "kind", "pos", "sst", "s1done", "called", "nops", "obs"],
+    constants=dict(MaxItems=8, Bug='"none"'),
+    config_vars=["place", "n", "ending", "nested", "slow", "kind"],
+    actions=dict(Pull=0, Release=0, CancelPull=0, Close=0, Abandon=0),
+    invariants=["ItemsInOrder", "GenSeesCreation", "CallSeesStreamScope", "ConsumerIntact", "StreamScopeCompletes"])
+
+
 def run(rep, work, tier, seed):
     mi = 2 if tier == "quick" else 3
-    leg_m(rep, work, SPEC, f"mc_{tier}", cfg_text(dict(MaxItems=mi + 1, Dev=False, Bug="none"), invariants=INVS),
-          expect_actions=["Pull", "Close", "Abandon"])
+    leg_m(rep, work, SPEC, f"mc_{tier}", cfg_text(dict(MaxItems=mi + 1, Bug="none"), invariants=INVS),
+          expect_actions=["Pull", "Release", "CancelPull", "Close", "Abandon"])
     if tier == "thorough":
         for bug, inv in (("reorder", ["ItemsInOrder"]), ("swallow_error", ["EndsWithError", "ItemsInOrder"]),
-                         ("never_completes", ["StreamScopeCompletes"])):
-            leg_mutant(rep, work, SPEC, f"mutant_{bug}", cfg_text(dict(MaxItems=2, Dev=False, Bug=bug), invariants=INVS), inv)
-    leg_r(rep, work, SPEC, f"conf_{tier}", cfg_text(dict(MaxItems=mi, Dev=True, Bug="none"), invariants=INVS),
-          StreamsDriver, kf_text=KF_TEXT, kf_classify=kf_classify, world=True)
+                         ("never_completes", ["StreamScopeCompletes"]), ("cancel_leaks_scope", ["StreamScopeCompletes"]), ("call_outside_scope", ["CallSeesStreamScope"])):
+            leg_mutant(rep, work, SPEC, f"mutant_{bug}", cfg_text(dict(MaxItems=2, Bug=bug), invariants=INVS), inv)
+    leg_r(rep, work, SPEC, f"conf_{tier}", cfg_text(dict(MaxItems=mi + 1, Bug="none"), invariants=INVS),
+          StreamsDriver, world=True)
+    # leg T: longer streams (up to 8 items, suspension before a random item) with random operation sequences
+    rnd = random.Random(seed * 31 + 11)
+    traces = gen_traces(rep, lambda: gen_trace(rnd), 150 if tier == "quick" else 2000)
+    leg_t_gen(rep, work, SPEC, f"trace_{tier}", traces, **TRACE_KW)
     rep.assumptions += [
         "the generator double yields, as each item, what it observes itself (state lookup, metrics scope), optionally "
         "from inside a nested scope; consumption from 'other tasks' pulls every item from a fresh task",
         "garbage-collection of an abandoned stream (async-generator finaliser) is replaced by explicit aclose()",
-        "the deviation actions havoc only: the state value seen by the generator, the consumer's probe triple between "
-        "items / after break, the end result + completion when consumed across tasks, completion after an unstarted close",
     ]
     return rep.finish(exhaustive=True,
                       rule="every scenario (4 consumption places x item counts x normal/error end x nested scope) x every "
-                           "sequence of pull / abandon / close; every edge replayed; deviations classified into listed "
-                           "known findings")
+                           "sequence of pull / abandon / close; every edge replayed")
 
 
 def replay(rep, record):
     from harness.graph import parse_label
     d = StreamsDriver()
     d.reset(record["init"])
-    print("  scenario:", {k: record["init"][k] for k in ("place", "n", "ending", "nested")})
+    print("  scenario:", {k: record["init"][k] for k in ("place", "n", "ending", "nested", "slow", "kind")})
     try:
         for lab in record["path"]:
             name, args = parse_label(lab)
-            print(f"  {lab} -> {d.apply(name.split('_KF_')[0], args)}")
+            print(f"  {lab} -> {d.apply(name, args)}")
     finally:
         d.close()
